@@ -255,10 +255,23 @@ def opkind(op):
 def check_history(ctx: Ctx, hist, steps, origin):
     failed = False
     prev = None
+    victims: set[int] = set()       # datasets hit by the stale-trash-row defect; their later inconsistencies are its consequences
 
-    def fail(kind, i, what, extra=None):
+    def fail(kind, i, what, extra=None, d=None):
         nonlocal failed
         n0 = len(ctx.oracle_failures)
+        if d is not None and ("_exists_many" in kind or kind == "stored-vs-artifact"):
+            o = steps[i]["obs"]
+            mine = {(r[1], r[2]) for r in o["raw_recs"] if r[0] == d}
+            sharing = sorted({r[0] for r in o["raw_recs"] if r[0] != d and (r[1], r[2]) in mine})
+            if sharing and o["exists"][d][:3] == [int(d in {x[0] for x in o["raw_ds"]}), 1, 1] and o["stored"][d] == 1:
+                # the single-ref interfaces are right, only the bulk ones are wrong, and another id's record names the same artifact
+                kind = "bulk-existence-shared-artifact:" + kind
+                what = f"(records of dataset(s) {sharing} name the same artifact) " + what
+        if d is not None and d in victims:
+            kind = "stale-trash-row-victim:" + kind
+            what = (f"dataset {d} had a stale row in dataset_location_trash while it was stored again and an emptyTrash "
+                    f"deleted its records: ") + what
         ctx.oracle_fail(f"{kind}:{opkind(hist[i])}", {"history": hist[: i + 1], "step": i, "op": hist[i], "outcome": steps[i]["out"],
                                                       "origin": origin, "detail": extra}, what)
         if len(ctx.oracle_failures) > n0:
@@ -276,6 +289,9 @@ def check_history(ctx: Ctx, hist, steps, origin):
         colls = {c: k for c, k in obs["colls"]}
         ids_reg = {r[0] for r in obs["raw_ds"]}
         pending = set(obs["raw_trash"])
+        if prev is not None:
+            victims |= {d for d in prev["raw_trash"] if d in prev["raw_loc"] and d not in obs["raw_trash"]}
+        victims = {d for d in victims if d in obs["raw_loc"]}
 
         # ---- (1) existence reports tell the truth, for every dataset id, at every step
         for d in range(NDS):
@@ -290,20 +306,20 @@ def check_history(ctx: Ctx, hist, steps, origin):
                         fail(f"flags:{nm}:{FLAG[f]}:{got[f]}-truth-{truth[f]}", i,
                              f"Butler.{nm} reports {FLAG[f]}={got[f]} for dataset {d} but the "
                              f"{'registry' if f == 0 else 'datastore'} says {truth[f]} (raw tables / root listing of the same step)",
-                             {"dataset": d, "reported": got, "truth": truth})
+                             {"dataset": d, "reported": got, "truth": truth}, d=d)
                 if got[3] != 0:
                     fail(f"flags:{nm}:assumed-with-full-check", i, "_ASSUMED set although full_check=True")
             if d not in pending:
                 if obs["locations"][d] != int(d in obs["raw_loc"]) or obs["locations"][d] != truth[1]:
                     fail("locations-vs-records", i, f"getDatasetLocations / dataset_location / datastore records disagree for dataset {d}",
-                         {"getDatasetLocations": obs["locations"][d], "in dataset_location": d in obs["raw_loc"], "records": rec})
+                         {"getDatasetLocations": obs["locations"][d], "in dataset_location": d in obs["raw_loc"], "records": rec}, d=d)
                 if obs["stored"][d] != truth[2] or obs["stored_many"][d] != truth[2]:
                     fail("stored-vs-artifact", i, f"Butler.stored / stored_many disagree with the presence of dataset {d}'s artifact",
-                         {"stored": obs["stored"][d], "stored_many": obs["stored_many"][d], "truth": truth})
+                         {"stored": obs["stored"][d], "stored_many": obs["stored_many"][d], "truth": truth}, d=d)
                 for nm, got in (("exists", fast), ("_exists_many", mfast)):
                     want = truth[:2] + [0, int(bool(truth[0] or truth[1]))]
                     if got != want:
-                        fail(f"flags-fast:{nm}", i, f"Butler.{nm}(full_check=False) reports {got} for dataset {d}, expected {want}")
+                        fail(f"flags-fast:{nm}", i, f"Butler.{nm}(full_check=False) reports {got} for dataset {d}, expected {want}", d=d)
             if obs["get_dataset"][d] != truth[0]:
                 fail("get_dataset-vs-registry", i, f"get_dataset disagrees with the dataset table for dataset {d}")
             if "readable" in obs and d not in pending:
@@ -322,7 +338,7 @@ def check_history(ctx: Ctx, hist, steps, origin):
                 if got[f] != truth[f]:
                     fail(f"flags:exists-carried-ref:{FLAG[f]}:{got[f]}-truth-{truth[f]}", i,
                          f"Butler.exists(ref carrying datastore records) reports {FLAG[f]}={got[f]} for dataset {d} but the truth is {truth[f]}",
-                         {"dataset": d, "reported": got, "truth": truth})
+                         {"dataset": d, "reported": got, "truth": truth}, d=d)
         if obs["unknown_files"]:
             fail("unknown-file", i, "a file appeared in the datastore root that no put wrote", obs["unknown_files"][:4])
 
@@ -396,6 +412,10 @@ def check_history(ctx: Ctx, hist, steps, origin):
                     targets, mode = set(op[1]), "regremove"
                     if _datastore_view(prev) != _datastore_view(obs):
                         fail("registry-removal-touched-datastore", i, "registry.removeDatasets changed datastore tables / artifacts")
+            elif k == "EmptyTrash" and ok:
+                targets, mode = set(prev["raw_trash"]), "emptytrash"      # only datasets pending in the trash may be touched
+            elif k == "Trash" and ok:
+                targets, mode = set(op[1]), "trash"
             if ok and k not in ("Prune", "RemoveRuns", "RegRemove", "RegColl") and sorted(pcolls.items()) != sorted(colls.items()):
                 fail("collections-changed", i, f"{k} changed the set of collections")
             if targets is not None:
@@ -444,13 +464,14 @@ def check_history(ctx: Ctx, hist, steps, origin):
                                     fail(f"disassociate-changed:{kk}", i, f"disassociate-only prune changed {kk} of dataset {d}")
                 # everything else: the per-dataset observation vector is unchanged
                 for d in range(NDS):
-                    if d in targets or d in prev["raw_trash"]:
-                        continue
+                    if d in targets or (d in prev["raw_trash"] and d not in prev["raw_loc"]):
+                        continue        # a dataset pending in the trash is already marked for deletion
                     v, pv = _vec(obs, d), _vec(prev, d)
                     if v != pv:
-                        ch = sorted(kk for kk in v if v[kk] != pv[kk])
-                        fail(f"bystander-changed:{'+'.join(ch)}", i, f"{opkind(op)} of {sorted(targets)} changed what is reported about dataset {d}",
-                             {kk: [pv[kk], v[kk]] for kk in ch})
+                        ch = sorted(kk for kk in v if v[kk] != pv[kk] and kk != "trash")
+                        if ch:
+                            fail(f"bystander-changed:{'+'.join(ch)}", i, f"{opkind(op)} of {sorted(targets)} changed what is reported about dataset {d}",
+                                 {kk: [pv[kk], v[kk]] for kk in ch}, d=d)
                 if mode in ("unstore", "disassociate", "disassociate+unstore", "noop") and sorted(pcolls.items()) != sorted(colls.items()):
                     fail("collections-changed", i, "pruneDatasets changed the set of collections")
                 if mode == "disassociate" and _datastore_view(prev) != _datastore_view(obs):
